@@ -199,17 +199,19 @@ PROPS["C04"] = {
     "level_note": "On the pinned tree C04_unlink_once / C04_outcome were false for nsync_wait_n records (defect F3, now fixed in /repo: the old Cv model with the refutation is kept in the library as Props/C04.lean, the F3 schedule is a corpus regression). Transferred waiters are handed to the mutex queue (C02). The mutex is abstract in this layer. Fair termination is a paper step.",
 }
 PROPS["C08"] = {
-    "imports": ["NsyncVerif.Props.C08"],
+    "imports": ["NsyncVerif.Props.C08", "NsyncVerif.Props.C08Release"],
     "theorems": ["Note." + t for t in ["C08_flag_monotone", "C08_flag_monotone_run", "C08_notified_monotone", "C08_monotone", "C08_observed_notified", "C08_anc_ever",
                  "C08_sound", "C08_notify_post", "C08_expiry_min", "C08_expiry_min_ret", "C08_creation_path", "C08_creation_ghosts", "C08_expiry_min_full_holds",
                  "C08_expiry_min_old_code_witness", "C08_complete_witness", "C08_complete_partial",
-                 "C08_stack_notified", "C08_unaffected_partial", "C08_ancestors_unaffected"]],
+                 "C08_stack_notified", "C08_unaffected_partial", "C08_ancestors_unaffected",
+                 "C08_waiters_released", "C08_no_lost_wakeup", "C08_notified_waiters_in_progress", "C08_waiting_record", "C08_complete_released",
+                 "C08_child_iff_parent", "C08_children_nodup", "C08_unaffected_full_holds", "C08_unaffected", "C08_siblings_unaffected", "C08_parent_and_siblings_unaffected"]],
     "layers": ["note", "mux"],
     "oracles": {"stuck", "expiry-min", "notify-post", "note-wait", "early-timeout", "panic", "crash", "dead-object"},
     "plan": {"quick": [("note", 150, 8), ("note_f4", 10, 8)], "thorough": [("note", 1500, 16), ("note_f4", 60, 16)]},
     "harness_args": ["checkplain=1"],
     "level_text": "Kernel-checked theorems over the Note model (note.c and the wait path of nsync_note_wait statement by statement on a forest with parent/children/disconnecting/waiters, note mutexes abstract; unbounded notes, threads, depth, steps): the flag and the API-level 'notified' are one-way, every observer history is monotone, a notified note has a cause (notify called or a deadline passed on itself or an ancestor-at-some-time), notify's post-condition, ancestors are never affected, everything on a notifier's recursion stack is notified, and nsync_note_expiry returns the minimum of the creation deadlines on the creation-time path to the root for EVERY note, born notified or not (C08_expiry_min, C08_expiry_min_ret — for the code as repaired by afe43b7). Tied to the code by lockstep replay including a digest of the REAL note forest after every note API return, which the model must reproduce.",
-    "level_note": "One clause is FALSE on the current code and carried as a known finding with a Lean witness and harness replays: completeness (F4: a free of a note with children concurrent with a notification of an ancestor — C08_complete_partial holds for executions without such an adoption under a notified parent; negation proved on a concrete trace). The expiry clause was false on the pinned tree (F5, notes born notified) and is repaired in /repo (afe43b7); what the old code did is recorded by C08_expiry_min_old_code_witness and the corpus regression. The expiry clause is about CREATION-time ancestors (C08_creation_path): nsync_note_free re-parents children but never changes an expiry time. C08_unaffected is proved w.r.t. the creation-time path (partial; the current-tree statement is kept as a def). The waiter-release half of completeness for descendants is not proved. Monotone clock assumed.",
+    "level_note": "One clause is FALSE on the current code and carried as a known finding with a Lean witness and harness replays: completeness (F4: a free of a note with children concurrent with a notification of an ancestor — C08_complete_partial holds for executions without such an adoption under a notified parent; negation proved on a concrete trace). The expiry clause was false on the pinned tree (F5, notes born notified) and is repaired in /repo (afe43b7); what the old code did is recorded by C08_expiry_min_old_code_witness and the corpus regression. The expiry clause is about CREATION-time ancestors (C08_creation_path): nsync_note_free re-parents children but never changes an expiry time. 'Ancestors and siblings are unaffected' is proved w.r.t. the CURRENT forest (C08_unaffected_full_holds, C08_siblings_unaffected; it needed the converse of the parent/children invariant, which rests on the locks and on the `disconnecting` counter). The waiter-release half of completeness is proved: unconditionally for the note itself (C08_waiters_released: once a note is notified and no activation on it is in progress, its waiter list is empty, every record registered on it has `waiting` cleared and every owner still blocked has been posted) and, for descendants, under the same hypothesis as the flags (C08_complete_released — the hypothesis excludes exactly the adoption step of the known defect F4). 'Released' is the safety form (flag cleared and V performed or owed by an activation in progress); that P then returns is the semaphore's contract (C12). Monotone clock assumed.",
 }
 PROPS["C09"] = {
     "imports": ["NsyncVerif.Props.C09"],
